@@ -90,7 +90,7 @@ Definition apply_bi (b : bi) (vs : list value) (o : list value) : res * list val
             | _ => Err EBadForm end, o)
   | BList => (Val (VList vs), o)      (* (list) is an empty list object, not nil *)
   | BEmit => match vs with [v] => (Val v, o ++ [v]) | _ => (Err EBadForm, o) end
-  | BProgn => (Val (last vs VNil), o)
+  | BProgn => (Err EBadForm, o)   (* `progn` never gets evaluated arguments (SkipEval since repo_fixes/C01-10); see eval_progn *)
   | BIf => (Err EBadForm, o)   (* `if` never gets evaluated arguments (SkipEval) *)
   (* two values: quotient and remainder; only a positive divisor is in the fragment *)
   | BFloor => (match vs with
@@ -272,6 +272,19 @@ Section WithEval.
         | (AStop r, st1) => (r, st1)
         end
     end.
+  (* pkg/cl/progn.go (after repo_fixes/C01-10): SkipEval {true}; Call evaluates the forms one after the other with
+     EvalArg on Function.Eval's local copy of the argument slice (an empty list value becomes nil, Values are not
+     collapsed); the converted forms are written back, in order, only after Call returned normally (like `if`) *)
+  Fixpoint eval_progn (st : state) (en : env) (forms : list sexp) (lastv : value) (ds : list (option (nat * callee)))
+    : res * state :=
+    match forms with
+    | [] => (Val lastv, fold_left apply_def ds st)
+    | f :: rest =>
+        match ev st en f with
+        | (Val v, st1) => eval_progn st1 en rest (norm v) (ds ++ [deferred st f])
+        | r => r
+        end
+    end.
   (* pkg/cl/if.go *)
   Definition eval_if (st : state) (en : env) (args : list sexp) : res * state :=
     let go (c a : sexp) (b : option sexp) :=
@@ -320,6 +333,7 @@ Fixpoint evalM (n : nat) (st : state) (en : env) (e : sexp) : res * state :=
       | SList id (SSym f :: args) =>
           match wrapper st id f with
           | WUndef => (Err EUndefined, st)
+          | WOk (CB BProgn) => eval_progn (evalM n') st en args VNil []
           | WOk (CB BIf) => eval_if (evalM n') st en args
           | WOk (CB BCase) => eval_case (evalM n') st en args
           | WOk (CB b) =>
@@ -340,7 +354,7 @@ Fixpoint evalM (n : nat) (st : state) (en : env) (e : sexp) : res * state :=
 (* ---- compilation ---------------------------------------------------------------------------- *)
 (* CompileArgs: is argument number i of this function evaluated (SkipEval false at i)? *)
 Definition strict_at (c : callee) (i : nat) : bool :=
-  match c with CB BIf => false | CB BCase => Nat.eqb i 0 | _ => true end.
+  match c with CB BIf | CB BProgn => false | CB BCase => Nat.eqb i 0 | _ => true end.
 (* CompileList 342-363: an unknown name gets a placeholder Lambda registered in lambdas and funcs *)
 Definition resolve_or_place (st : state) (f : string) : callee * state :=
   match resolve st f with
